@@ -27,14 +27,14 @@ PROPS = {
              'the documented aggregators; the runtime block-splitter predicate equals the documented one; the python '
              'generator emits descriptors whose runtime class matches the model member class.',
              'byte-for-byte equality of encode() output with the canonical encoding for all schemas and values',
-             'AST skeleton extraction + sibling/role matching, constant folding, finite predicate abstraction'),
+             'AST skeleton extraction + sibling/role matching, constant folding, finite predicate abstraction', claimed=True),
     'C02': P('Python decode inverts encode',
              'Sibling agreement: each decode walker mirrors its encode walker step by step (same pad sources, same '
              'static slot sizes returned as consumed length); terminal unread-bytes test present and only on the '
              'terminal path, nested decodes pass terminal=False; len_hints written by the sizer decoder before the '
              'array decoder reads them; decode writes only decoded values into the message.',
              'value equality after the round trip for all schemas and values; the documented greedy-tail exception',
-             'AST skeleton extraction, encode/decode sibling comparison, def-use on setattr sources'),
+             'AST skeleton extraction, encode/decode sibling comparison, def-use on setattr sources', claimed=True),
     'C03': P('Python and C++ full codec wire-compatible',
              'Scalar tables agree across Python runtime, model and C++ (names, widths, C types, codec_traits); every '
              'multi-byte encode_int/decode_int specialisation has a bijective byte-lane table, identity for little and '
